@@ -900,3 +900,28 @@ V("C06", "twin-detM-sarrus", THC, """    detM = M[0] * (M[4] * M[8] - M[5] * M[7
 V("C06", "twin-superpose-trace-order", TRJ, """        self_g = np.einsum("ijk,ijk->i", self_align_xyz, self_align_xyz)
         ref_g = np.einsum("ijk,ijk->i", ref_align_xyz, ref_align_xyz)""", """        ref_g = np.einsum("ijk,ijk->i", ref_align_xyz, ref_align_xyz)
         self_g = np.einsum("ijk,ijk->i", self_align_xyz, self_align_xyz)""", None)
+
+# ---------------------------------------------------------------- C10
+NBC = "mdtraj/geometry/src/neighbors.cpp"
+NLC = "mdtraj/geometry/src/neighborlist.cpp"
+NBPYX = "mdtraj/geometry/neighbors.pyx"
+NLPYX = "mdtraj/geometry/neighborlist.pyx"
+V("C10", "neighbors-no-break", NBC, "                result.push_back(i);\n                break;", "                result.push_back(i);", "C10-R1")
+V("C10", "neighbors-self-not-skipped", NBC, "            if (i == j)\n                continue;\n", "", "C10-R1")
+V("C10", "neighbors-cutoff-not-squared", NBC, "    float cutoff2 = cutoff*cutoff;", "    float cutoff2 = cutoff;", "C10-R1")
+V("C10", "neighbors-nonstrict", NBC, "            if (dist2 < cutoff2) {", "            if (dist2 <= cutoff2) {", "C10-R1")
+V("C10", "neighbors-records-query-atom", NBC, "                result.push_back(i);", "                result.push_back(j);", "C10-R1")
+V("C10", "neighbors-loops-swapped", NBC, "    for (hit = haystack_indices.begin(); hit != haystack_indices.end(); ++hit) {", "    for (hit = query_indices.begin(); hit != query_indices.end(); ++hit) {", "C10-R1")
+V("C10", "neighbors-wrap-on-position", NBC, "            fvec4 delta = pos1-pos2;\n            if (triclinic) {", "            fvec4 delta = pos1;\n            if (triclinic) {", "C10-R1")
+V("C10", "neighbors-triclinic-ignores-entry", NBC, "box_matrix[3] != 0 || box_matrix[5] != 0", "box_matrix[5] != 0", "C10-R1")
+V("C10", "neighborlist-collects-both-directions", NLC, "                        if (index >= atomIndex)\n                            continue;\n", "                        if (index == atomIndex)\n                            continue;\n", "C10-R2")
+V("C10", "neighborlist-no-completion", NLC, "            neighbors[neighbors[i][j]].push_back(i);", "            neighbors[i].push_back(neighbors[i][j]);", "C10-R2")
+V("C10", "neighborlist-cutoff-linear", NLC, "        float maxDistanceSquared = maxDistance * maxDistance;", "        float maxDistanceSquared = maxDistance;", "C10-R2")
+V("C10", "neighborlist-wrap-removed", NLC, "        atomLocations = &wrappedLocations[0];\n", "", "C10-R3")
+V("C10", "neighborlist-wrap-x-only", NLC, "            for (int k = 2; k >= 0; k--) {", "            for (int k = 0; k >= 0; k--) {", "C10-R3")
+V("C10", "neighborlist-wrap-by-round", NLC, "                float scale = floorf(pos[k]/periodicBoxVectors[k][k]);", "                float scale = roundf(pos[k]/periodicBoxVectors[k][k]);", "C10-R3")
+V("C10", "neighbors-pyx-box-of-frame-zero", NBPYX, "            box_matrix_pointer = &box_matrix[i,0,0]", "            box_matrix_pointer = &box_matrix[0,0,0]", "C10-R4")
+V("C10", "neighbors-pyx-query-haystack-swapped", NBPYX, "            &xyz[i,0,0], traj.xyz.shape[1], cutoff, query_indices_,\n            haystack_indices_, box_matrix_pointer)", "            &xyz[i,0,0], traj.xyz.shape[1], cutoff, haystack_indices_,\n            query_indices_, box_matrix_pointer)", "C10-R4")
+V("C10", "neighbors-pyx-periodic-ignored", NBPYX, "    cdef int is_periodic = periodic and (traj.unitcell_vectors is not None)", "    cdef int is_periodic = (traj.unitcell_vectors is not None)", "C10-R4", "compute_neighbors")
+V("C10", "neighborlist-pyx-box-of-frame-zero", NLPYX, "        unitcell_vectors = ensure_type(traj.unitcell_vectors[frame],", "        unitcell_vectors = ensure_type(traj.unitcell_vectors[0],", "C10-R4")
+V("C10", "twin-neighbors-postincrement", NBC, "        for (qit = query_indices.begin(); qit != query_indices.end(); ++qit) {", "        for (qit = query_indices.begin(); qit != query_indices.end(); qit++) {", None)
